@@ -219,6 +219,7 @@ class Interp:
 
     def on_call(self, e, st): pass
     def pre_call(self, e, st): pass      # before the call's side effects on its arguments/receiver are applied
+    def pre_assign(self, lhs, rhs, st): pass   # before the side effects of the lvalue (arr[i++]) are applied
     def on_assign(self, lhs, rhs, st): pass
     def on_return(self, s, st): pass
     def on_exit(self, st): pass
@@ -234,6 +235,7 @@ class Interp:
         k = e.get('k')
         if k == 'Assign':
             self.effects(e['b'], st)
+            self.pre_assign(e['a'], e['b'], st)
             if e['a'].get('k') != 'Var':
                 self.effects_lvalue(e['a'], st)
             self.assign(e['a'], e['b'], st, e['op'])
